@@ -13,6 +13,7 @@ import (
 	"github.com/bytemare/secp256k1/internal/verif/alpha"
 	"github.com/bytemare/secp256k1/internal/verif/ev"
 	"github.com/bytemare/secp256k1/internal/verif/ref"
+	"github.com/bytemare/secp256k1/internal/verif/sched"
 	"github.com/bytemare/secp256k1/internal/verif/verifrt"
 )
 
@@ -194,12 +195,46 @@ func traceMultiply(rec *recorder, p point, k *big.Int, full bool) traceSig {
 	e, s := p.mk(), newScalar(k)
 
 	rec.reset(full)
-	verifrt.Hook = rec.hook
-	e.Multiply(s)
-	verifrt.Hook = nil
+
+	if !scheduledTraces {
+		g0 := verifrt.GoCount.Load()
+		verifrt.Hook = rec.hook
+		e.Multiply(s)
+		verifrt.Hook = nil
+
+		if verifrt.GoCount.Load() == g0 {
+			return traceSig{rec.fieldHash, rec.fieldN}
+		}
+
+		// Multiply starts goroutines on this tree: the order in which their field operations reach the recorder is
+		// the Go scheduler's. From now on every traced call runs as the single harness thread of a cooperative
+		// execution with the default schedule (no preemption; a started goroutine runs when its parent waits for it
+		// or ends), which is deterministic - the property is then judged on that one schedule.
+		scheduledTraces = true
+		e, s = p.mk(), newScalar(k)
+		rec.reset(full)
+	}
+
+	if noPoints == nil {
+		noPoints = make([]bool, len(verifrt.Names))
+	}
+
+	sched.Observer = rec.hook
+	ex := sched.Run([]func(){func() { e.Multiply(s) }}, nil, noPoints)
+	sched.Observer = nil
+
+	if ex.Stuck || ex.Deadlock {
+		traceUndecidable = "a traced Multiply did not complete under the cooperative scheduler (blocking it does not own)"
+	}
 
 	return traceSig{rec.fieldHash, rec.fieldN}
 }
+
+var (
+	scheduledTraces  bool
+	noPoints         []bool
+	traceUndecidable string
+)
 
 func c19Scalars(thorough bool) []*big.Int {
 	set := map[string]*big.Int{}
@@ -355,6 +390,17 @@ func C19(r *ev.Report) {
 			return
 		}
 
+		if scheduledTraces {
+			// (the first, free-running trace is not comparable with the scheduled ones)
+			ref0 = traceMultiply(rec, p, big.NewInt(0), false)
+			r.Bound("traced_under_the_cooperative_scheduler", true)
+		}
+
+		if traceUndecidable != "" {
+			r.Incomplete(traceUndecidable)
+			return
+		}
+
 		// determinism of the recorder itself
 		if again := traceMultiply(rec, p, big.NewInt(0), false); again != ref0 {
 			r.ToolError("recorder not deterministic on %s", p.name)
@@ -373,6 +419,11 @@ func C19(r *ev.Report) {
 
 			got := traceMultiply(rec, p, k, false)
 			distinct[got] = true
+
+			if traceUndecidable != "" {
+				r.Incomplete(traceUndecidable)
+				return
+			}
 
 			if got != ref0 {
 				key, detail := c19Case(rec, p, k)
